@@ -9,7 +9,7 @@ use vbase::alloc;
 use vbase::engine::{Ctx, Fail, Obs, Sub};
 use vbase::{ensure, fail};
 
-pub const RULE: &str = "cases are schedules: choice vectors consumed by a controlled scheduler that serialises 2-3 real threads at the granularity of the atomic operations of the two cache fields (yield points supplied by the cfg(sonic_rs_verif) AtomicPtr shim) and additionally decides, at every weak compare-exchange, whether it fails spuriously. Scenarios: a shared LazyValue holding an escaped string with threads doing {as_str, clone + as_str on the clone + drop}; a shared raw OwnedLazyValue (object, array, escaped string, number) with threads doing {get(key|index), as_str, as_number, as_array/as_object, clone + read + drop}. The schedule tree of every scenario is enumerated completely by depth-first search (stateless re-execution). Oracle: every reader's result equals the reference decode / child; no fault (a crash is captured by the signal handler with the schedule as replay); global live allocation count and bytes after all threads joined equal those of the sequential run of the same calls (exactly one cached decoding survives), and return to the baseline when the shared value is dropped (losers freed exactly once, nothing leaked, nothing freed twice). Non-trivial = a schedule with a context switch between a thread's load and its own compare-exchange, or with an injected weak-CAS failure; distinct by choice vector.";
+pub const RULE: &str = "cases are schedules: choice vectors consumed by a controlled scheduler that serialises 2-3 real threads at the granularity of the atomic operations of the two cache fields (yield points supplied by the cfg(sonic_rs_verif) AtomicPtr shim) and additionally decides, at every weak compare-exchange, whether it fails spuriously. Scenarios: a shared LazyValue holding an escaped string with threads doing {as_str, clone + as_str on the clone + drop}; a shared raw OwnedLazyValue (object, array, escaped string, number) with threads doing {get(key|index), as_str, as_number, as_array/as_object, clone + read + drop}; an owned object with a duplicated member name read by two threads in opposite orders; a clone converted into an OwnedLazyValue while another thread reads. The schedule tree of every scenario is enumerated completely by depth-first search (stateless re-execution). Oracle: every reader's result equals what the same call returns on a fresh unshared value (reference decode / first matching child); no fault (a crash is captured by the signal handler with the schedule as replay); global live allocation count and bytes after all threads joined equal those of the sequential run of the same calls (exactly one cached decoding survives), and return to the baseline when the shared value is dropped (losers freed exactly once, nothing leaked, nothing freed twice). Non-trivial = a schedule with a context switch between a thread's load and its own compare-exchange, or with an injected weak-CAS failure; distinct by choice vector.";
 pub const ASSUMPTIONS: &[&str] = &["sequentially consistent interleavings only; reorderings that only a weak memory model allows are not explored", "the hook shim has the API and semantics of std's AtomicPtr (a spurious weak-CAS failure stores nothing and reports the current value)"];
 
 // ------------------------------------------------------------------------------------------
@@ -157,6 +157,12 @@ enum TOp {
     AsNumber,
     AsContainer,
     CloneReadDrop,
+    /// get of a member name that occurs twice (the first occurrence must win in every schedule)
+    GetDup,
+    /// get of the member right before the second occurrence of the duplicated name
+    GetTag,
+    /// clone, read the clone, convert the clone into an OwnedLazyValue, read and drop that
+    CloneConvertDrop,
 }
 
 #[derive(Clone, Debug)]
@@ -189,6 +195,10 @@ fn scenarios(quick: bool) -> Vec<Scenario> {
         v.push(Scenario { name: "owned-arr-3x", owned: true, json: arr, programs: vec![vec![GetIdx, GetIdx], vec![CloneReadDrop], vec![AsContainer]] });
         v.push(Scenario { name: "owned-str-3x", owned: true, json: esc, programs: vec![vec![AsStr], vec![CloneReadDrop], vec![AsStr]] });
     }
+    // (appended so that the scenario indices used by saved replay files stay stable)
+    let dup = "{\"id\":1,\"kind\":\"k\",\"tag\":\"t\\n\",\"id\":2,\"z\":[3]}";
+    v.push(Scenario { name: "owned-dupkey-get", owned: true, json: dup, programs: vec![vec![GetTag, GetDup], vec![GetDup, GetTag]] });
+    v.push(Scenario { name: "lazy-as_str+convert", owned: false, json: esc, programs: vec![vec![AsStr], vec![CloneConvertDrop]] });
     v
 }
 
@@ -207,7 +217,18 @@ fn run_op(sh: &Shared, op: TOp) -> String {
             drop(c);
             r
         }
+        (Shared::Lazy(l), TOp::CloneConvertDrop) => {
+            let c = l.clone();
+            let a = format!("{:?}", c.as_str());
+            let o = OwnedLazyValue::from(c);
+            let r = format!("{a}/{:?}", o.as_str());
+            drop(o);
+            r
+        }
         (Shared::Lazy(l), _) => format!("{:?}", l.as_str()),
+        (Shared::Owned(o), TOp::GetDup) => format!("{:?}", o.get("id").and_then(|x| x.as_u64())),
+        (Shared::Owned(o), TOp::GetTag) => format!("{:?}", o.get("tag").and_then(|x| x.as_str().map(|s| s.to_string()))),
+        (Shared::Owned(o), TOp::CloneConvertDrop) => format!("{:?}", o.clone().as_str()),
         (Shared::Owned(o), TOp::AsStr) => format!("{:?}", o.as_str()),
         (Shared::Owned(o), TOp::GetKey) => format!("{:?}", o.get("s").and_then(|x| x.as_str().map(|s| s.to_string()))),
         (Shared::Owned(o), TOp::GetIdx) => format!("{:?}", o.get(0usize).and_then(|x| x.as_str().map(|s| s.to_string()))),
@@ -238,7 +259,11 @@ fn make_shared(sc: &Scenario) -> Shared {
 /// allocation deltas at the two measurement points
 fn sequential(sc: &Scenario) -> (Vec<Vec<String>>, (i64, i64)) {
     let sh = make_shared(sc);
-    let res: Vec<Vec<String>> = sc.programs.iter().map(|p| p.iter().map(|op| run_op(&sh, *op)).collect()).collect();
+    let seq: Vec<Vec<String>> = sc.programs.iter().map(|p| p.iter().map(|op| run_op(&sh, *op)).collect()).collect();
+    // the expected result of an operation is what it returns on a fresh, unshared value: it must not
+    // depend on what other readers did before
+    let res: Vec<Vec<String>> = sc.programs.iter().map(|p| p.iter().map(|op| run_op(&make_shared(sc), *op)).collect()).collect();
+    let _ = seq;
     let mid = alloc::global_live();
     drop(sh);
     let end = alloc::global_live();
